@@ -287,6 +287,11 @@ func catalog(p ScenParams) *WSpec {
 		tg2 := ProcSpec{Name: "tg2", Kind: "tagger", TagKey: "k2", Ins: []string{"in"}}
 		w.Procs = []ProcSpec{src, simpleProc("p", kind), tg1, tg2, simpleProc("d", kind)}
 		w.Edges = []Edge{fe("src", "out", "p", "in"), fe("p", "out", "tg", "in"), fe("tg", "out", "tg2", "in"), fe("tg2", "out", "d", "in")}
+	case "g14e": // tagging BEFORE a fan-out, and again further down one arm: src -> p -> tg -> {c -> tg2 -> e, d}
+		tg1 := ProcSpec{Name: "tg", Kind: "tagger", TagKey: "k", Ins: []string{"in"}}
+		tg2 := ProcSpec{Name: "tg2", Kind: "tagger", TagKey: "k2", Ins: []string{"in"}}
+		w.Procs = []ProcSpec{src, simpleProc("p", kind), tg1, simpleProc("c", kind), tg2, simpleProc("e", kind), simpleProc("d", kind)}
+		w.Edges = []Edge{fe("src", "out", "p", "in"), fe("p", "out", "tg", "in"), fe("tg", "out", "c", "in"), fe("tg", "out", "d", "in"), fe("c", "out", "tg2", "in"), fe("tg2", "out", "e", "in")}
 	case "g14a": // tagging alone in a chain
 		tg := ProcSpec{Name: "tg", Kind: "tagger", TagKey: "k", Ins: []string{"in"}}
 		w.Procs = []ProcSpec{src, simpleProc("p", kind), tg, simpleProc("d", kind)}
